@@ -30,6 +30,15 @@ namespace bloc
 {
 #define IMAGINARY_TO_COMPLEX(i) std::complex<Numeric>((i).a, (i).b)
 
+const Type& ABSExpression::type(Context &ctx) const
+{
+  const Type& t0 = _args[0]->type(ctx);
+  /* the modulus of complex */
+  if (t0 == Type::IMAGINARY)
+    return Value::type_numeric;
+  return t0;
+}
+
 Value& ABSExpression::value(Context & ctx) const
 {
   Value& val = _args[0]->value(ctx);
@@ -58,7 +67,7 @@ Value& ABSExpression::value(Context & ctx) const
   case Type::IMAGINARY:
   {
     if (val.isNull())
-      return val;
+      break;
     v = Value(Numeric(std::abs(IMAGINARY_TO_COMPLEX(*val.imaginary()))));
     break;
   }
